@@ -29,14 +29,23 @@ EXPLANATION = (
     'object is raised at once; one sleep per retry, each equal to delay_ms_for_try(tries)/1000 and inside '
     '[min(c/2,max), min(c,max)], c=base*2^min(tries,30). delay_ms_for_try itself is translated from its AST to z3 '
     'Int arithmetic and proved for ALL tries>=0 and all draws of randrange (defaults and symbolic base/max); '
-    'thorough re-decides the SMT-LIB text with cvc5. The exception catalogue is finite: classes not named by the '
+    'thorough re-decides the SMT-LIB text with cvc5. (X) Independently of the classifiers: an exception whose own class '
+    'is outside their vocabulary (ValueError, KeyError, RuntimeError, a user-defined Exception subclass, aiohttp / '
+    'hailtop.httpx ClientResponseError with a symbolic permanent status 400..405 and empty body), with no declared '
+    'cause, raised inside except blocks that are handling a catalogue error of symbolic kind (implicit __context__, '
+    'chain depth 0..2, `from None` or not, symbolic) must be raised at once - one call, no sleep, same object - by '
+    'retry_transient_errors, retry_transient_errors_with_debug_string, retry_transient_errors_with_delayed_warnings '
+    'and sync_retry_transient_errors; the expected verdict there comes from the property text ("any other error"), so '
+    'a classifier that is widened to look through __context__ is reported. The exception catalogue is finite: classes not named by the '
     'classifiers (other than the listed permanent ones) are outside the claim.'
 )
 SRC = 'hail/python/hailtop/utils/utils.py'
-FUNCS = ('retry_transient_errors_with_debug_string', 'is_transient_error', 'is_limited_retries_error',
+FUNCS = ('retry_transient_errors', 'retry_transient_errors_with_delayed_warnings', 'sync_retry_transient_errors',
+         'sync_sleep_before_try', 'retry_transient_errors_with_debug_string', 'is_transient_error', 'is_limited_retries_error',
          'is_rate_limit_error', 'is_delayed_warning_error', 'delay_ms_for_try')
 CLS_LOOP = 'retry-loop-deviates-from-policy'
 CLS_DELAY = 'delay-outside-documented-bounds'
+CLS_CTX = 'unclassified-error-retried-because-of-implicit-context'
 
 
 # ---------------------------------------------------------------------------------------------------
@@ -267,6 +276,8 @@ def run(R):
     nreps = len(H.REPS_LIST)
     R.bounds = {'sweep_positions_t': ts, 'catalogue_kinds': H.K, 'integer_parameter': '-2..100000',
                 'cause_chain_depth': '0..2', 'sequence_lengths': f'1..{maxn}', 'representative_kinds': nreps,
+                'implicit_context_family': '6 outside-vocabulary outer kinds x status 400..405 x 24 context kinds x '
+                                           'context depth 0..2 x suppress yes/no x 4 retry helpers',
                 'jitter_in_loop_runs': 'min / mid / max draw (all draws: z3 proof of delay_ms_for_try)',
                 'delay_ms_for_try': 'all tries >= 0; base 1..2^20, max 0..2^31 (and the defaults)'}
     R.assume(
@@ -286,6 +297,12 @@ def run(R):
         'aiohttp.ClientPayloadError is always built with a message (is_transient_error indexes e.args[0])',
         '"transient", "rate-limit" and "limited-retry" mean what the real classifiers return for the same exception '
         'object, evaluated outside the loop; the check is about the loop, not about which errors ought to be transient',
+        'family X: for errors whose own class is outside the classifiers\' vocabulary and that declare no cause, the '
+        'expected verdict (raise at once) comes from the property text, not from the classifiers; the error that was '
+        'being handled is a catalogue kind at its most retryable integer/message parameters; permanent HTTP statuses '
+        'are 400..405 (client errors other than 408/429) with an empty body; for the sync helper `time.sleep` is a '
+        'recorder in the utils namespace; the explicit `raise ... from` dimension keeps the code\'s documented rule '
+        '(follow __cause__) with the classifiers as oracle',
         'position sweeps use TransientError for the first t-1 failures; the only state the loop carries between '
         'iterations is `tries` (sequence family B varies the earlier failures too, up to the stated length)',
         'in loop runs the jitter draw is the minimum, the middle or the maximum of its range (the loop divides by 1000.0, '
@@ -323,11 +340,14 @@ def run(R):
             if not alive and n > len(prefix):
                 continue
             seqs.append((n, prefix, 'ok' if alive else 'raised'))
-    gm = chrun.gen_module(f'C21_conditions_{R.tier}', C21_template.source(sweeps, seqs, H.K, H.MAXS, nreps))
+    gm = chrun.gen_module(f'C21_conditions_{R.tier}', C21_template.source(
+        sweeps, seqs, H.K, H.MAXS, nreps, ctx=H.HELPERS, NO=len(H.OUTSIDE), SLO=H.PERMANENT_HTTP[0],
+        SHI=H.PERMANENT_HTTP[1]))
     targets = [f'{gm}.sweep{t}_{lo}_{hi}' for t, lo, hi in sweeps]
     targets += [f'{gm}.sweep{t}_reach_{w}' for t in ts for w in ('ok', 'raised')]
     tag = C21_template.seq_tag
     targets += [f'{gm}.seq{n}_{tag(pf)}' for n, pf, _ in seqs] + [f'{gm}.seq{n}_{tag(pf)}_reach' for n, pf, _ in seqs]
+    targets += [f'{gm}.ctx_{h}' for h in H.HELPERS] + [f'{gm}.ctx_{h}_reach' for h in H.HELPERS]
     res = chrun.run(targets, per_condition_timeout=pct, workers=8)
 
     def handle(name, target, twins, argnames, to_replay):
@@ -344,7 +364,7 @@ def run(R):
             why = explain(rep, H)
             if not why:
                 raise HarnessError(f'CrossHair counterexample does not reproduce concretely: {msg}')
-            st = R.finding(CLS_LOOP, f'{rep}: {why}', rep)
+            st = R.finding(CLS_CTX if rep['family'] == 'context' else CLS_LOOP, f'{rep}: {why}', rep)
             R.ob(name, st, dt, {'cex': rep, 'why': why}, nontrivial=True)
         else:
             R.ob(name, 'not_discharged', dt, {'crosshair': msg[-300:]})
@@ -357,6 +377,18 @@ def run(R):
                [f'{gm}.sweep{t}_reach_ok', f'{gm}.sweep{t}_reach_raised'], ['kind', 'p', 's', 'depth'],
                lambda a, t=t: {'family': 'sweep', 't': t, 'kind': a['kind'], 'kind_name': H.CATALOGUE[a['kind']][0],
                                'p': a['p'], 's': a['s'], 'depth': a['depth'], 'jsel': t % 3})
+    helper_name = {'debug_string': 'retry_transient_errors_with_debug_string', 'plain': 'retry_transient_errors',
+                   'delayed_warnings': 'retry_transient_errors_with_delayed_warnings',
+                   'sync': 'sync_retry_transient_errors'}
+    for h in H.HELPERS:
+        handle(f'{helper_name[h]}: an error outside the classifiers\' vocabulary, no declared cause, raised while any '
+               f'catalogue error was being handled (implicit __context__, depth 0..2, suppressed or not) is raised at '
+               f'once after one call', f'{gm}.ctx_{h}', [f'{gm}.ctx_{h}_reach'],
+               ['okind', 'status', 'ckind', 'depth', 'sup'],
+               lambda a, h=h: {'family': 'context', 'helper': h, 'okind': a['okind'],
+                               'outer': H.OUTSIDE[a['okind']][0], 'status': a['status'], 'ckind': a['ckind'],
+                               'context': H.CATALOGUE[a['ckind']][0], 'depth': a['depth'],
+                               'suppress_context': a['sup']})
     for n, pf, _ in seqs:
         handle(f'loop: every sequence of {n} failures over the representative kinds starting with '
                f'{[keys[k] for k in pf]} (lim,rate,trans)', f'{gm}.seq{n}_{tag(pf)}', [f'{gm}.seq{n}_{tag(pf)}_reach'],
@@ -368,6 +400,9 @@ def run(R):
 def explain(rep, H):
     """re-execute a replay dict on the real code; '' when the property holds"""
     try:
+        if rep['family'] == 'context':
+            return H.context_check(rep['helper'], rep['okind'], rep['status'], rep['ckind'], rep['depth'],
+                                   rep['suppress_context'])
         if rep['family'] == 'sweep':
             return H.sweep(rep['t'], rep['kind'], rep['p'], rep['s'], rep['depth'], rep['jsel'])
         if rep['family'] == 'seq':
